@@ -366,7 +366,7 @@ def main(argv):
             'bounds': cfg.get('bounds', 'loop-free: every value of every symbolic input'),
             'outside_claim': cfg.get('outside', ''),
             'harnesses': len(names), 'solver_time_s': round(solver_time, 1),
-            'e2': ({k: e2res[k] for k in ('shapes', 'downstream_shapes', 'queries', 'native_runs')} if e2res else None),
+            'e2': ({k: e2res[k] for k in ('shapes', 'downstream_shapes', 'queries', 'native_runs', 'probes') if k in e2res} if e2res else None),
             'program_steps': stats_sum['program_steps'], 'vccs': stats_sum['vccs'],
             'vccs_after_simplification': stats_sum['vccs_remaining'],
             'per_harness': per_harness,
